@@ -327,3 +327,19 @@ def resolve_alt(d, env):
         else:
             d = d["alts"][-1]
     return d
+
+
+def concretize(f, n):
+    """turn a small-range symbolic int/bool into a concrete one by forking on equality (the solver enumerates the range)"""
+    try:
+        from crosshair.core import NoTracing
+    except Exception:
+        return int(f)
+    with NoTracing():
+        concrete = not type(f).__module__.startswith("crosshair")
+    if concrete:
+        return int(f)
+    for v in range(n):
+        if f == v:
+            return v
+    raise AssertionError("flag outside its range")
